@@ -41,7 +41,9 @@ VALUE_KINDS = ["int", "float", "text", "bool", "datetime", "nullable", "bytes"]
 
 KINDS = ["bad_dtype", "nonstr_name", "dup_names", "null_in_required", "surrogate_text", "bytes_in_text", "text_in_int",
          "missing_column", "extra_column", "diff_scheme", "diff_partition", "unknown_codec", "unknown_codec_col",
-         "read_unknown_column", "filter_unknown_column"]
+         "read_unknown_column", "filter_unknown_column",
+         # beyond the kinds the property lists, same principle: a refused in-place update of the key/value metadata
+         "kv_update_nontext"]
 
 
 @st.composite
@@ -173,6 +175,11 @@ def prepare_op(case, df1, path, other):
         c = _pick(vcols, case["colpos"])
         kw["compression"] = {c["name"]: "NOPE", "_default": "SNAPPY"}
 
+    if kind == "kv_update_nontext":
+        from fastparquet import writer as fwriter
+        target = path if scheme == "simple" else os.path.join(path, "_metadata")
+        bad = {"simple": {"k": 5}, "hive": {"owner": "x", "n": [1, 2]}}.get(scheme, {"k": 5.5})
+        return (lambda fs: fwriter.update_file_custom_metadata(target, bad, is_metadata_file=(scheme != "simple"))), "kv_update"
     if kind == "read_unknown_column":
         return (lambda fs: fastparquet.ParquetFile(path).to_pandas(columns=["__nope__"])), "read"
     if kind == "filter_unknown_column":
@@ -234,6 +241,8 @@ def run_case(case):
             raised = None
         finally:
             fs.close_all()
+        if raised is None and case["kind"] == "kv_update_nontext":
+            return discard("not refused", labels)
         if raised is None:
             return viol("accepted|%s|%s" % (case["kind"], how), "the operation (%s through %s) did not raise" % (case["kind"], how), labels=labels)
         writes = sum(1 for ev in fs.events if ev[0] == "write")
